@@ -826,3 +826,12 @@ META = {
         "set_active_state (only its call of set_thread_state matters for the word), create_work / create_thread paths",
     ],
 }
+
+
+# ---- the remaining queue hops (thread_queue create/add_new/destroy/cleanup/recycle + scheduler wrappers), written by a
+# ---- second sub-agent after seeded change C01-1 was missed ---------------------------------------------------------------
+import os as _os
+exec(open(_os.path.join("/verif/specs/C01", "hops_spec.py")).read())
+UNITS += HOPS_UNITS
+for _k in ("trusted_base", "assumptions", "not_decided"):
+    META[_k] = list(META.get(_k, [])) + list(HOPS_META.get(_k, []))
